@@ -131,14 +131,17 @@ func c17Extra(tier string, seed int64) *runner.ExtraResult {
 	cov["distinguishing_check_same_constructor_atom_pairs"] = npairs
 
 	// term universe
-	d2base := atoms
+	// depth 2: arity 0/1 over all atoms; arity 2 over the "large" atom set (thorough) / "medium" set (quick).
+	// The arity-2 closure over all 257 atoms would give 133k depth-2 terms, with depth 3 3.5e10 ordered pairs
+	// (about 2 CPU-hours of Equals calls): infeasible within the tier budget, hence the documented reduction.
+	d2base := atomsUpTo(atoms, 3)
 	d3atoms := atomsUpTo(atoms, 0)
 	if !thorough {
 		d2base = atomsUpTo(atoms, 2)
 		d3atoms = d3atoms[:4]
 	}
 	low := append(append([]*Term(nil), d3atoms...), closure(d3atoms)...)
-	terms := append(append([]*Term(nil), atoms...), closure(d2base)...)
+	terms := append(append([]*Term(nil), atoms...), closure2(atoms, d2base)...)
 	terms = dedupe(append(terms, closure(low)...))
 	T := len(terms)
 	byDepth := map[int]int{}
@@ -327,7 +330,8 @@ func c17Extra(tier string, seed int64) *runner.ExtraResult {
 	cov["terms_by_depth"] = byDepth
 	cov["atoms"] = len(atoms)
 	cov["atoms_by_constructor"] = byCtor
-	cov["depth2_closure_over_atoms"] = len(d2base)
+	cov["depth2_arity01_closure_over_atoms"] = len(atoms)
+	cov["depth2_arity2_closure_over_atoms"] = len(d2base)
 	cov["depth3_closure_over_atoms"] = d3names
 	cov["objects"] = len(objs)
 	cov["ordered_pairs_evaluated"] = tot.pairs
@@ -340,10 +344,9 @@ func c17Extra(tier string, seed int64) *runner.ExtraResult {
 	cov["fn_free_terms_rebuilt"] = rebuilt
 	cov["permutation_checks"] = permChecks
 	cov["accept_calls"] = int64(T) * int64(len(objs))
-	res.Note = fmt.Sprintf("depth<=2 closure over %d of %d atoms, depth 3 over %d atoms; all %d x %d ordered pairs", len(d2base), len(atoms), len(d3atoms), T, T)
-	if !thorough {
-		res.Note += "; quick tier: the depth-2 closure uses a reduced atom set (all atoms themselves are paired with everything); the thorough tier closes over the full atom set"
-	}
+	res.Note = fmt.Sprintf("atoms: all %d; depth 2: arity 0/1 over all atoms, arity 2 over a reduced set of %d atoms (every constructor represented; "+
+		"the arity-2 closure over all atoms is infeasible: 3.5e10 ordered pairs); depth 3 over %d atoms; all %d x %d ordered pairs of this universe",
+		len(atoms), len(d2base), len(d3atoms), T, T)
 	if !res.Complete {
 		res.Note += fmt.Sprintf("; INCOMPLETE: time budget %v hit after %d of %d rows", budget, tot.rows, T)
 	}
